@@ -338,4 +338,211 @@ mutual
         have := s.depth; have := sr.depth; omega
 end
 
+/-! ### the loop over the words -/
+
+/-- one word: a bracketed one goes to the recursive call -/
+def tokOf (Sy : Syms) (rec : Str → Option (Tok Sym)) (w : Str) : Option (Tok Sym) :=
+  if startsWith ['('] w then rec w else interpretWord Sy w
+
+/-- the loop :245-253 on the part of the string that is still to be read -/
+def parseRest (Sy : Syms) (rec : Str → Option (Tok Sym)) : Nat → Str → Option (List (Tok Sym))
+  | 0, _ => none
+  | steps + 1, rem =>
+    if rem = [] then some [] else
+    match tokOf Sy rec (parseNextWord rem).1 with
+    | none => none
+    | some t =>
+      match parseRest Sy rec steps (rem.drop (parseNextWord rem).2) with
+      | none => none
+      | some ts => some (t :: ts)
+
+theorem parseWords_eq (Sy : Syms) (rec : Str → Option (Tok Sym)) (steps : Nat) (spec : Str) (idx : Nat) :
+    parseWords Sy rec steps spec idx = parseRest Sy rec steps (spec.drop idx) := by
+  induction steps generalizing spec idx with
+  | zero => rfl
+  | succ n ih =>
+    rw [parseWords, parseRest]
+    by_cases h : idx < spec.length
+    · have hne : spec.drop idx ≠ [] := by
+        intro e; rw [List.drop_eq_nil_iff] at e; omega
+      simp only [h, if_true, hne, if_false, tokOf]
+      rw [ih (spec.drop idx) (parseNextWord (spec.drop idx)).2]
+      cases (if startsWith ['('] (parseNextWord (spec.drop idx)).1 = true then rec (parseNextWord (spec.drop idx)).1
+        else interpretWord Sy (parseNextWord (spec.drop idx)).1) <;> rfl
+    · have he : spec.drop idx = [] := List.drop_eq_nil_iff.mpr (by omega)
+      simp [h, he]
+
+/-- the words of an argument list, the last one without its closing brackets -/
+def wordsT : List RTok → Str
+  | [] => []
+  | [a] => renderT a
+  | a :: b :: as => render a ++ ' ' :: wordsT (b :: as)
+
+theorem renderArgsT_eq (args : List RTok) (h : args ≠ []) : renderArgsT args = ' ' :: wordsT args := by
+  induction args with
+  | nil => exact absurd rfl h
+  | cons a as ih =>
+    cases as with
+    | nil => simp [renderArgsT, wordsT]
+    | cons b bs => simp [renderArgsT, wordsT, ih (by simp)]
+
+/-- a word of the documented syntax that is not a function pattern -/
+theorem tokOf_atom (Sy : Syms) (rec : Str → Option (Tok Sym)) (t : RTok) (hok : renderOK Sy t = true)
+    (hf : isFunc t = false) : tokOf Sy rec (render t) = sem Sy t ∧ tokOf Sy rec (renderT t) = sem Sy t := by
+  have sh := shape Sy t hok
+  obtain ⟨_, _, c, r, hr, hc, r', hr'⟩ := sh.atomSp hf
+  have h1 : startsWith ['('] (render t) = false := by rw [hr, startsWith_single]; simpa using hc.symm
+  have h2 : startsWith ['('] (renderT t) = false := by rw [hr', startsWith_single]; simpa using hc.symm
+  unfold tokOf
+  simp only [h1, h2, Bool.false_eq_true, if_false]
+  cases t with
+  | any => exact ⟨by simp [render, sem, interp_any], by simp [renderT, sem, interp_any]⟩
+  | set s =>
+    have hs : setOK s = true := by simpa [renderOK] using hok
+    cases s with
+    | names ns => exact ⟨by simp [render, renderSet, sem, interp_set_names Sy hs], by simp [renderT, renderSet, sem, interp_set_names Sy hs]⟩
+    | neg ns =>
+      have := interp_set_neg Sy hs
+      exact ⟨by simp only [render, renderSet, sem, this]; cases resolveNeg Sy ns <;> rfl,
+        by simp only [renderT, renderSet, sem, this]; cases resolveNeg Sy ns <;> rfl⟩
+  | cntAll most ds =>
+    have hd : digitsOK ds = true := by simpa [renderOK] using hok
+    exact ⟨by rw [interp_cntAll Sy ds hd most]; simp [sem], by simp only [renderT]; rw [interp_cntAll Sy ds hd most]; simp [sem]⟩
+  | cnt most ns ds =>
+    simp only [renderOK, Bool.and_eq_true] at hok
+    have := interp_cnt Sy hok.1 ds hok.2 most
+    exact ⟨by rw [this]; simp only [sem]; cases resolveNames Sy ns.eraseDups <;> cases parseNat ds <;> rfl,
+      by simp only [renderT]; rw [this]; simp only [sem]; cases resolveNames Sy ns.eraseDups <;> cases parseNat ds <;> rfl⟩
+  | sub force ns =>
+    have hn : namesOK ns = true := by simpa [renderOK] using hok
+    constructor
+    · have := interp_sub Sy hn force [')'] (Or.inl rfl)
+      simp only [render]; rw [this]; simp [sem]
+    · have := interp_sub Sy hn force [] (Or.inr rfl)
+      simp only [renderT]; simp only [List.append_nil] at this; rw [this]; simp [sem]
+  | func _ _ => simp [isFunc] at hf
+
+theorem func_inner (Sy : Syms) (h : RSet) (args : List RTok) (hok : renderOK Sy (.func h args) = true) :
+    setOK h = true ∧ renderOKs Sy args = true ∧ Bal (renderSet h ++ renderArgs args) ∧
+      OBal (renderSet h ++ renderArgsT args) := by
+  simp only [renderOK, Bool.and_eq_true] at hok
+  obtain ⟨⟨hs, _⟩, ha⟩ := hok
+  have sa := shapeArgs Sy args ha
+  have hsb : Bal (renderSet h) := Bal.plain (fun c hc => (renderSet_chars hs c hc).1)
+  exact ⟨hs, ha, hsb.append sa.bal, OBal.append_bal hsb sa.obal⟩
+
+/-- cutting a word of the documented syntax -/
+theorem pnw_tok (Sy : Syms) (a : RTok) (hok : renderOK Sy a = true) :
+    (∀ rest, parseNextWord (render a ++ ' ' :: rest) = (render a, (render a).length + 1)) ∧
+    parseNextWord (renderT a) = (renderT a, (renderT a).length + 1) := by
+  by_cases hf : isFunc a = true
+  · cases a with
+    | func h args =>
+      obtain ⟨_, _, hb, hob⟩ := func_inner Sy h args hok
+      constructor
+      · intro rest
+        have := pnw_group hb rest
+        simp only [render]
+        rw [show ('(' :: (renderSet h ++ renderArgs args ++ [')']) ++ ' ' :: rest) =
+          '(' :: ((renderSet h ++ renderArgs args) ++ ')' :: (' ' :: rest)) by simp]
+        rw [pnw_group hb (' ' :: rest)]
+        simp [Nat.add_assoc]
+      · simp only [renderT]
+        rw [pnw_open hob]; simp
+    | _ => simp [isFunc] at hf
+  · have hf' : isFunc a = false := by simpa using hf
+    obtain ⟨h1, h2, c, r, hr, hc, r', hr'⟩ := (shape Sy a hok).atomSp hf'
+    exact ⟨fun rest => (pnw_word (render a) rest c r hr hc h1).1, (pnw_word (renderT a) [] c r' hr' hc h2).2⟩
+
+theorem tokOf_tok (Sy : Syms) (rec : Str → Option (Tok Sym)) (a : RTok) (hok : renderOK Sy a = true)
+    (hrec : isFunc a = true → rec (render a) = sem Sy a ∧ rec (renderT a) = sem Sy a) :
+    tokOf Sy rec (render a) = sem Sy a ∧ tokOf Sy rec (renderT a) = sem Sy a := by
+  by_cases hf : isFunc a = true
+  · cases a with
+    | func h args =>
+      have := hrec hf
+      unfold tokOf
+      simp only [render, renderT, startsWith_single, beq_self_eq_true, if_true]
+      simpa [render, renderT] using this
+    | _ => simp [isFunc] at hf
+  · exact tokOf_atom Sy rec a hok (by simpa using hf)
+
+theorem renderT_ne_nil (Sy : Syms) (a : RTok) (hok : renderOK Sy a = true) : renderT a ≠ [] := by
+  obtain ⟨c, hc, _⟩ := (shape Sy a hok).lastT
+  intro e; rw [e] at hc; simp at hc
+
+theorem render_ne_nil (Sy : Syms) (a : RTok) (hok : renderOK Sy a = true) : render a ≠ [] := by
+  obtain ⟨k, hk⟩ := (shape Sy a hok).close
+  intro e
+  rw [e] at hk
+  have := renderT_ne_nil Sy a hok
+  cases hr : renderT a with
+  | nil => exact this hr
+  | cons x xs => rw [hr] at hk; simp at hk
+
+theorem parseRest_nil (Sy : Syms) (rec : Str → Option (Tok Sym)) (n : Nat) : parseRest Sy rec (n + 1) [] = some [] := by
+  simp [parseRest]
+
+theorem parseRest_args (Sy : Syms) (rec : Str → Option (Tok Sym)) : ∀ (args : List RTok), args ≠ [] →
+    renderOKs Sy args = true →
+    (∀ a ∈ args, isFunc a = true → rec (render a) = sem Sy a ∧ rec (renderT a) = sem Sy a) →
+    ∀ steps, steps ≥ args.length + 1 → parseRest Sy rec steps (wordsT args) = semArgs Sy args
+  | [], h, _, _, _, _ => absurd rfl h
+  | [a], _, hok, hrec, steps, hs => by
+    simp only [renderOKs, Bool.and_eq_true, and_true] at hok
+    obtain ⟨n, rfl⟩ : ∃ n, steps = n + 2 := ⟨steps - 2, by simp at hs; omega⟩
+    have hne := renderT_ne_nil Sy a hok
+    rw [parseRest]
+    simp only [wordsT, hne, if_false, (pnw_tok Sy a hok).2]
+    rw [(tokOf_tok Sy rec a hok (hrec a List.mem_cons_self)).2]
+    rw [List.drop_of_length_le (by omega), parseRest_nil]
+    simp only [semArgs]
+    cases sem Sy a <;> rfl
+  | a :: b :: as, _, hok, hrec, steps, hs => by
+    simp only [renderOKs, Bool.and_eq_true] at hok
+    obtain ⟨n, rfl⟩ : ∃ n, steps = n + 1 := ⟨steps - 1, by simp at hs; omega⟩
+    have hne : render a ++ ' ' :: wordsT (b :: as) ≠ [] := by simp
+    conv => rhs; rw [semArgs]
+    rw [parseRest]
+    simp only [wordsT, hne, if_false, (pnw_tok Sy a hok.1).1]
+    rw [(tokOf_tok Sy rec a hok.1 (hrec a List.mem_cons_self)).1]
+    rw [show (render a).length + 1 = (render a ++ [' ']).length by simp,
+      show render a ++ ' ' :: wordsT (b :: as) = (render a ++ [' ']) ++ wordsT (b :: as) by simp, List.drop_left]
+    rw [parseRest_args Sy rec (b :: as) (by simp) (by simp only [renderOKs, Bool.and_eq_true]; exact hok.2)
+      (fun x hx => hrec x (List.mem_cons_of_mem _ hx)) n (by simp at hs ⊢; omega)]
+    cases sem Sy a <;> cases semArgs Sy (b :: as) <;> rfl
+
+theorem wordsT_length (Sy : Syms) : ∀ (args : List RTok), renderOKs Sy args = true → (wordsT args).length ≥ args.length
+  | [], _ => by simp [wordsT]
+  | [a], hok => by
+    simp only [renderOKs, Bool.and_eq_true, and_true] at hok
+    have := renderT_ne_nil Sy a hok
+    cases hr : renderT a with
+    | nil => exact absurd hr this
+    | cons _ _ => simp [wordsT, hr]
+  | a :: b :: as, hok => by
+    simp only [renderOKs, Bool.and_eq_true] at hok
+    have := wordsT_length Sy (b :: as) (by simp only [renderOKs, Bool.and_eq_true]; exact hok.2)
+    simp only [wordsT, List.length_append, List.length_cons] at this ⊢
+    omega
+
+theorem fdepth_le_of_mem {a : RTok} {args : List RTok} (h : a ∈ args) : fdepth a ≤ fdepths args := by
+  induction args with
+  | nil => cases h
+  | cons x xs ih =>
+    rw [fdepths]
+    rcases List.mem_cons.mp h with e | e
+    · subst e; omega
+    · have := ih e; omega
+
+theorem renderOK_of_mem (Sy : Syms) {a : RTok} {args : List RTok} (hok : renderOKs Sy args = true) (h : a ∈ args) :
+    renderOK Sy a = true := by
+  induction args with
+  | nil => cases h
+  | cons x xs ih =>
+    simp only [renderOKs, Bool.and_eq_true] at hok
+    rcases List.mem_cons.mp h with e | e
+    · subst e; exact hok.1
+    · exact ih hok.2 e
+
 end PS.C05
